@@ -151,4 +151,13 @@ CLAIMED["C14"] = {"text": "Coq theorem over a transition-system model of CmdShel
                  "judged in Coq by splitting the stream per descriptor. Timing is real: one-sided.",
          "note": TB + "os/exec.Cmd.Wait, kernel pipe and io.Pipe semantics are assumptions of the model; liveness (the stream does end) is observed, not proved.",
          "technique": "Coq proof (invariant over all schedules of a small concurrent model) + stress correspondence with real children judged by vm_compute"}
+CLAIMED["C08"] = {"text": "Coq theorems (for every parser satisfying load_ok): over every history of starts, crashes during the write and damage without deletion, "
+                 "every successful start serves the pair of the run that created the file and the file keeps stemming from it (never rewritten); with a "
+                 "file present nothing is written and only the original pair or an error results; a missing file is regenerated with the run's own pair; "
+                 "0600/0700 are owner-only. PARTIAL: load_ok (a cut or damaged file either still yields the original MATCHING pair or is an error other "
+                 "than not-exist) is a hypothesis about txtar/PEM/x509, CHECKED on every run on the real parsers by enumerating EVERY prefix length of a "
+                 "real cache file (~815 crash points), 400 single-byte corruptions in every region, restart/delete/no-cache histories and 0-4 nested "
+                 "not-yet-existing directories, with key identity, key/certificate match, file bytes+mtime and permission bits observed.",
+         "note": TB + "crash = constructed prefix (no process is killed mid-write); umask 022; mode literals checked in the source per run.",
+         "technique": "Coq proof under an explicit parser hypothesis + exhaustive crash-point / corruption enumeration judged by vm_compute"}
 NOT_CLAIMED = {}
